@@ -18,13 +18,18 @@ pub struct C11;
 
 // lseek: the positioning done as part of opening a WAL file / handing the cursor to the writer
 const CLASSES: [usize; 5] = [CL_OPENDIR, CL_READDIR, CL_OPEN_FILE, CL_READ, CL_LSEEK];
-const ERRNOS: [(i32, &str); 6] = [
+const ERRNOS: [(i32, &str); 10] = [
     (libc::EIO, "EIO"),
     (libc::EACCES, "EACCES"),
     (libc::ENOMEM, "ENOMEM"),
     (libc::EMFILE, "EMFILE"),
     (libc::ENOENT, "ENOENT"),
     (libc::ESTALE, "ESTALE"),
+    // kinds that "look transient" or "look like end of file" to a careless caller
+    (libc::EAGAIN, "EAGAIN"),
+    (libc::ETIMEDOUT, "ETIMEDOUT"),
+    (libc::EBUSY, "EBUSY"),
+    (libc::ENOSPC, "ENOSPC"),
 ];
 
 /// Child body: open the directory under the armed fault and describe the result.
@@ -66,7 +71,7 @@ impl Monitor for C11 {
         "fault_enumeration"
     }
     fn num_cases(&self, tier: Tier) -> u64 {
-        tier.pick(160, 4_000)
+        tier.pick(120, 3_000)
     }
     fn floors(&self, tier: Tier) -> Vec<(&'static str, u64)> {
         vec![
@@ -80,7 +85,7 @@ impl Monitor for C11 {
         ]
     }
     fn rule(&self) -> String {
-        "case = one WAL image (1..8 files) produced by a generated history; per image the recovery's traced opendir/readdir/open/read/lseek calls are counted in a fault-free child, then EVERY n-th call of every class is failed once and from-then-on with each of 6 errnos in a fresh forked child (exhaustive per image over injection points); evaluation = one injected recovery; oracle: the child must return Err(IoError) before a logical budget of 10x the fault-free traced calls + 1000; distinct_nontrivial = distinct (image, class, n, errno, mode) injections that hit a call after the first WAL file was opened".into()
+        "case = one WAL image (1..8 files) produced by a generated history; per image the recovery's traced opendir/readdir/open/read/lseek calls are counted in a fault-free child, then EVERY n-th call of every class is failed once and from-then-on with each of 10 errnos in a fresh forked child (exhaustive per image over injection points); evaluation = one injected recovery; oracle: the child must return Err(IoError) before a logical budget of 10x the fault-free traced calls + 1000; distinct_nontrivial = distinct (image, class, n, errno, mode) injections that hit a call after the first WAL file was opened".into()
     }
     fn assumptions(&self) -> Vec<String> {
         vec![
